@@ -431,6 +431,9 @@ class MySQLHandshakeV10(MySQLPacketBase):  # pylint: disable=too-many-instance-a
             composer.compose_raw(self.auth_plugin_data_2)
 
         if MySQLCapability.CLIENT_PLUGIN_AUTH in self.capabilities:
+            if self.auth_plugin_name is None:
+                # with CLIENT_PLUGIN_AUTH the packet ends with the name of the authentication plugin
+                raise InvalidValue(self.auth_plugin_name, type(self), 'auth_plugin_name')
             composer.compose_string_null_terminated(self.auth_plugin_name, 'ascii')
 
         return composer.composed_bytes
